@@ -4,8 +4,10 @@ import (
 	"context"
 	"fmt"
 	"github.com/risor-io/risor/importer"
+	goos "os"
 	"sort"
 	"strings"
+	"sync"
 	"testing/fstest"
 	"time"
 
@@ -150,6 +152,7 @@ type replPiece struct {
 	Delta      int    // cancel/deadline: steps after the piece starts
 	Stale      map[int]int
 	Background bool // the piece runs under context.Background(), which can never be cancelled
+	AtImport   bool // cancel fault aimed at the park just before the importer is asked
 }
 
 func genSession(g, f *sim.Stream, tier string) (pieces []*replPiece, finalExpr string) {
@@ -259,7 +262,31 @@ func genSession(g, f *sim.Stream, tier string) (pieces []*replPiece, finalExpr s
 		id := 9000 + i*10
 		fp := &replPiece{Stale: map[int]int{}}
 		later := laterDefs(pos)
-		switch f.Intn(17) {
+		switch f.Intn(20) {
+		case 17:
+			// cancelled while the piece sits at an import (the importer then
+			// parses the module under a context that is already over)
+			fp.Fault = "cancel"
+			fp.AtImport = true
+			fp.Src = fmt.Sprintf("import rmod as scratchi%d\nscratchk%d := 0\nfor { scratchk%d = scratchk%d + 1 }", i, i, i, i)
+			fp.Delta = 150 + f.Intn(200)
+		case 18:
+			// rejected after it imported a module under the name of an existing global
+			fp.Fault = "compile-undefined"
+			name := "hcount"
+			if vs := earlierIntVars(pos); len(vs) > 0 && f.Bool() {
+				name = vs[f.Intn(len(vs))]
+			}
+			fp.Src = []string{
+				fmt.Sprintf("import rmod as %s; undefined_i%d", name, i),
+				fmt.Sprintf("from rmod import get as %s; undefined_j%d", name, i),
+				fmt.Sprintf("scratchh%d := func %s() { return 1 }; undefined_k%d", i, name, i),
+			}[f.Intn(3)]
+		case 19:
+			// fails at run time inside a function that has already made a closure
+			fp.Fault = "runtime"
+			fp.Src = fmt.Sprintf("mark(%d, 4); func scratchf%d() { c := 0; inc := func() { c++; return c }; inc(); error(\"rt-closure-%d\"); return inc }; scratchf%d()", id, i, i, i)
+			fp.Effective = fmt.Sprintf("mark(%d, 4)", id)
 		case 16:
 			// rejected for its parameter list, before the body is looked at
 			fp.Fault = "compile-undefined"
@@ -503,6 +530,32 @@ func c18Extras(g *sim.Stream, stmts []Stmt) []Stmt {
 }
 
 const c18Rmod = "n := 0\nfirst := 1\nmfail()\nsecond := 2\nfunc get() { return first + second }\nfunc bump() { n = n + 1; return n }\n"
+
+var c18DirOnce sync.Once
+var c18Dir string
+
+// c18ModuleDir holds the session's modules as files, for LocalImporter.
+func c18ModuleDir() string {
+	c18DirOnce.Do(func() {
+		base := goos.Getenv("VERIF_OUT")
+		if base == "" {
+			base = goos.TempDir()
+		} else {
+			base = dirOf(base)
+		}
+		d, err := goos.MkdirTemp(base, "c18mods-")
+		if err != nil {
+			panic("harness: " + err.Error())
+		}
+		goos.MkdirAll(d+"/pkg", 0o755)
+		goos.WriteFile(d+"/rmod.risor", []byte(c18Rmod), 0o644)
+		goos.WriteFile(d+"/badcfg.risor", []byte(c18Badcfg), 0o644)
+		goos.WriteFile(d+"/pkg/flaky.risor", []byte(c18Flaky), 0o644)
+		c18Dir = d
+	})
+	return c18Dir
+}
+
 const c18Flaky = "pre := 1\nmfail()\nval := 7\nfunc twice(x) { return x * 2 + pre - 1 }\n"
 const c18Badcfg = "early := 1\n[1][5]\nlate := 2\n"
 
@@ -540,6 +593,10 @@ func runC18(rc *fw.RunCtx) {
 	strat := sim.DrawStrategy(sched, 300)
 	s := sim.New(sched, strat, 80000)
 
+	useLocalImporter := g.Chance(1, 3)
+	if useLocalImporter {
+		rc.Hit("importer_local")
+	}
 	mk := func() (*Host, *risor.Config, map[string]bool) {
 		h := &Host{}
 		armed := false
@@ -564,7 +621,10 @@ func runC18(rc *fw.RunCtx) {
 		}
 		sort.Strings(gnames)
 		mfs := fstest.MapFS{"rmod.risor": &fstest.MapFile{Data: []byte(c18Rmod)}, "badcfg.risor": &fstest.MapFile{Data: []byte(c18Badcfg)}, "pkg/flaky.risor": &fstest.MapFile{Data: []byte(c18Flaky)}}
-		imp := importer.NewFSImporter(importer.FSImporterOptions{GlobalNames: gnames, SourceFS: mfs, Extensions: []string{".risor"}})
+		var imp importer.Importer = importer.NewFSImporter(importer.FSImporterOptions{GlobalNames: gnames, SourceFS: mfs, Extensions: []string{".risor"}})
+		if useLocalImporter {
+			imp = importer.NewLocalImporter(importer.LocalImporterOptions{GlobalNames: gnames, SourceDir: c18ModuleDir(), Extensions: []string{".risor"}})
+		}
 		cfg := risor.NewConfig(append(baseOpts(extra), risor.WithImporter(imp))...)
 		skip := map[string]bool{}
 		for _, n := range cfg.GlobalNames() {
@@ -681,11 +741,16 @@ func runC18(rc *fw.RunCtx) {
 			switch p.Fault {
 			case "cancel":
 				i := i
-				s.AtStep(base+p.Delta, "cancel", func() {
+				fire := func() {
 					rc.Hit("fault_cancel")
 					cancels[i]()
 					s.SetStrategy(sim.Fair{})
-				})
+				}
+				if p.AtImport {
+					rc.Hit("fault_cancel_at_import")
+					s.AtNextSite("vm.import", "cancel", fire)
+				}
+				s.AtStep(base+p.Delta, "cancel", fire)
 			case "deadline":
 				s.AtStep(base+p.Delta, "advance-clock", func() {
 					rc.Hit("fault_deadline")
